@@ -266,4 +266,28 @@ pub(crate) mod arrays {
             assert!(false, "MUST NOT RETURN: a trailing partial record was silently dropped");
         }
     }
+
+    harness! {
+        #[kani::unwind(12)]
+        fn x09_boolean_array_writer_reader_roundtrip() {
+            // field packing: write(BA3) . write_boolean . write(BA3) into a BA8, then read them back
+            use crate::ff::boolean_array::{BooleanArrayReader, BooleanArrayWriter};
+            use crate::secret_sharing::SharedValue;
+            let r: [u8; 2] = kani::any();
+            let bit: bool = kani::any();
+            kani::assume(r[0] < 8 && r[1] < 8);
+            let a: BA3 = unsafe { std::mem::transmute([r[0]]) };
+            let b: BA3 = unsafe { std::mem::transmute([r[1]]) };
+            let mut packed = BA8::ZERO;
+            let _ = BooleanArrayWriter::new(&mut packed).write(&a).write_boolean(Boolean::from(bit)).write(&b);
+            let raw: [u8; 1] = unsafe { std::mem::transmute(packed) };
+            assert!(raw[0] == r[0] | (u8::from(bit) << 3) | (r[1] << 4), "fields are packed back to back, low bits first");
+            let rd = BooleanArrayReader::new(&packed);
+            let (a2, rd): (BA3, _) = rd.read();
+            let (bit2, rd) = rd.read_boolean();
+            let (b2, _rd): (BA3, _) = rd.read();
+            assert!(a2 == a && bool::from(bit2) == bit && b2 == b, "reading returns what was written");
+            kani::cover!(true);
+        }
+    }
 }
